@@ -1,2 +1,8 @@
 mod dic_grammer;
 pub mod io;
+
+/// verification hook: exposes the line parser of the text dictionary format
+#[cfg(chokan_verif)]
+pub mod verif {
+    pub use super::dic_grammer::parse_entry;
+}
